@@ -57,6 +57,10 @@ def inits(tier):
     for n in ([4] if tier == "quick" else [2, 4, 5]):
         for attr in ([True] if tier == "quick" else [True, False]):
             out.append({"first": "36000", "step": "quarter", "n": n, "attr": attr, "layout": "1d"})
+    # an integer-typed axis 0..n-1 (step 1): fractional bounds must not be truncated to the axis dtype
+    for n in ([4] if tier == "quick" else [2, 4, 5]):
+        for attr in ([True] if tier == "quick" else [True, False]):
+            out.append({"first": "0", "step": "1", "n": n, "attr": attr, "layout": "1d", "dtype": "int"})
     for f, s, n, attr, lay in itertools.product(firsts, steps, lens, [True, False], layouts):
         if not attr and n < 2:
             continue
@@ -96,6 +100,8 @@ class St:
 def make_initial(init):
     first, step, n = FIRSTS[init["first"]], STEPS[init["step"]], init["n"]
     coords = first + np.arange(n) * step
+    if init.get("dtype") == "int":
+        coords = np.arange(n, dtype=np.int64) + int(first)  # an integer-typed axis (sample or frame numbers)
     var = xr.Variable("x", coords, attrs={"step": step} if init["attr"] else {})
     base = np.arange(n) + 1.0
     lay = init["layout"]
